@@ -324,6 +324,7 @@ def classification : List (String × String × Nat × SiteClass) := [
   ("app/mint/mint.go", "ProvideMintFn", 0, .moduleFlow),
   ("app/mint/mint.go", "ProvideMintFn", 1, .moduleFlow),
   ("x/da/keeper/abci.go", "Keeper.ChangeToVerifiedFromProofPeriod", 0, .fixedDenom),
+  ("x/da/keeper/abci.go", "Keeper.ChangeToVerifiedFromProofPeriod", 1, .fixedDenom),  -- refund of recorded challengers (fix S13a)
   ("x/da/keeper/abci.go", "Keeper.TallyValidityProofs", 0, .fixedDenom),
   ("x/da/keeper/abci.go", "Keeper.TallyValidityProofs", 1, .fixedDenom),
   ("x/da/keeper/abci.go", "Keeper.TallyValidityProofs", 2, .fixedDenom),
